@@ -31,6 +31,16 @@ impl Driven for D {
          _ => panic!("verif harness: unknown relation {}", rel),
       }
    }
+   fn clear(&mut self, rel: &str) {
+      match rel {
+         "a" => { self.0.a = Default::default(); },
+         "cpy" => { self.0.cpy = Default::default(); },
+         "val" => { self.0.val = Default::default(); },
+         "isc" => { self.0.isc = Default::default(); },
+         "ist" => { self.0.ist = Default::default(); },
+         _ => panic!("verif harness: unknown relation {}", rel),
+      }
+   }
    fn run(&mut self) { self.0.run(); }
    fn run_timeout(&mut self, nanos: u64) -> Option<bool> { Some(self.0.run_timeout(std::time::Duration::from_nanos(nanos))) }
    fn dump(&self) -> Value {
